@@ -72,10 +72,10 @@ func Write(out io.Writer, mesh modeling.Mesh) error {
 		writer.Byte(byte(alpha * 255))
 
 		rot := rotationData.At(i)
-		writer.Byte(byte((rot.X() * 128) + 128))
-		writer.Byte(byte((rot.Y() * 128) + 128))
-		writer.Byte(byte((rot.Z() * 128) + 128))
-		writer.Byte(byte((rot.W() * 128) + 128))
+		writer.Byte(rotationByte(rot.X()))
+		writer.Byte(rotationByte(rot.Y()))
+		writer.Byte(rotationByte(rot.Z()))
+		writer.Byte(rotationByte(rot.W()))
 
 		if writer.Error() != nil {
 			return writer.Error()
@@ -83,4 +83,11 @@ func Write(out io.Writer, mesh modeling.Mesh) error {
 	}
 
 	return nil
+}
+
+// rotationByte quantizes a quaternion component to a byte, clipped to the
+// range of a byte like the reference converter does. A component of 1 maps to
+// 256, which would otherwise wrap around and read back as -1.
+func rotationByte(component float64) byte {
+	return byte(math.Max(0, math.Min(255, (component*128)+128)))
 }
